@@ -33,14 +33,29 @@ class Unrecognised(Exception):
         self.node = node
 
 
+def safe_unparse(node: Any) -> str:
+    """ast.unparse for trees the interpreter's unparser refuses (before 3.12 an expression inside an f-string may not contain a backslash: a string constant with a
+    line break, after helpers were expanded in place).  Such constants are shown with visible stand-ins; the text is for display and keys only."""
+    import copy
+    try:
+        n2 = copy.deepcopy(node)
+        for fv in [x for x in ast.walk(n2) if isinstance(x, ast.FormattedValue)]:
+            for c in ast.walk(fv.value):
+                if isinstance(c, ast.Constant) and isinstance(c.value, str):
+                    c.value = c.value.replace('\\', '\u29f5').replace('\n', '\u2424').replace('\t', '\u2409').replace('\r', '\u240d').replace("'", '\u2019')
+        return ast.unparse(n2)
+    except Exception:  # pragma: no cover
+        return f'<{type(node).__name__}>'
+
+
 def norm(node: Any) -> str:
     """Normalised source of an AST node (no line numbers, canonical spacing)."""
     if isinstance(node, str):
         return node
     try:
         s = ast.unparse(node)
-    except Exception:  # pragma: no cover
-        s = repr(node)
+    except Exception:
+        s = safe_unparse(node)
     s = ' '.join(s.split())
     return s if len(s) <= 160 else s[:157] + '...'
 
